@@ -1,5 +1,6 @@
 (* Properties_C10.v — C10: angle, rotation and coordinate parametrisations are mutually consistent.
-   Statements only (closed by [exact]); all over the real-number instance ROps of the model AnglesModel.v.
+   Statements only (closed by [exact]); over the real-number instance ROps of the model AnglesModel.v, except the last
+   section (names ending in _binary64): the two angle normalisers at the rounded binary64 dictionary B64Ops.
    Notation:  rot_zyx x y z = Rz(z)*Ry(y)*Rx(x)  (x = roll, y = pitch, z = yaw);
               r2e = rotation3DToEulerAngles, q2e = quaternionToEulerAngles, r2a/a2r the planar pair,
               b02 = between0And2Pi, bpi = betweenMinusPiAndPi  (Scalar = double = R);
@@ -134,3 +135,119 @@ Theorem C10_source_tie_rotation_to_angles :
      (let '(r, p, y) := src_rotation3DToEulerAngles ROps (m00 m) (m10 m) (m20 m) (m21 m) (m22 m) in Some (mkV3 r p y))).
 Proof. exact (conj tie_rotation2DToEulerAngle tie_rotation3DToEulerAngles). Qed.
 Print Assumptions C10_source_tie_rotation_to_angles.
+
+(* ====================================================================================================================
+   FLOATING POINT (IEEE-754 binary64), sentence "angle normalisers return a value congruent to their input modulo 2*pi
+   inside their advertised interval".  The SAME model functions, instantiated at the rounded dictionary B64Ops
+   (GridMapFloat.v: + and - are the real operation followed by one rounding to nearest-even in FLT(-1074,53), comparisons
+   exact, npi = the double nearest to pi, fmod = the exact real remainder — exact in double by C10_fmod_exact_binary64).
+     b64 x        : x is a binary64 number            rnd64 : rounding to nearest-even
+     M_PI64  = rnd64 PI   (the constant M_PI)         M_2PI64 = 2 * M_PI64   (M_2PI; M_4PI = 2 * M_2PI64)
+   Lemmas in AnglesFloat.v.  Trusted: the hardware/compiler arithmetic is that rounding (one rounding per C++ operation:
+   no FMA contraction, no x87 excess precision), std::fmod returns the exact remainder (IEEE-754 / C Annex F), the
+   exponent range is not exceeded (every quantity here is below 16). *)
+From Flocq Require Import Core.
+From Romea Require Import GridMapFloat AnglesFloat AnglesFloatTie.
+
+(* --- M_PI is 0x1.921fb54442d18p+1, BELOW pi by 1.2246e-16 (less than half an ulp, 2^-52); M_2PI = 2*M_PI is a double
+       (the doubling is exact) and is what the model's constant evaluates to in binary64 --- *)
+Theorem C10_M_PI_binary64 :
+  npi B64Ops = M_PI64 /\ m_2pi B64Ops = M_2PI64 /\
+  M_PI64 = 884279719003555 / 281474976710656 /\ b64 M_PI64 /\ b64 M_2PI64 /\
+  12246 / 100000000000000000000 < PI - M_PI64 < 12247 / 100000000000000000000 /\
+  Rabs (M_PI64 - PI) <= bpow radix2 (-52).
+Proof.
+  exact (conj eq_refl (conj m_2pi_b64 (conj M_PI64_val (conj M_PI64_b64 (conj M_2PI64_b64
+        (conj M_PI64_err M_PI64_err_half_ulp)))))).
+Qed.
+Print Assumptions C10_M_PI_binary64.
+
+(* --- std::fmod is exact: the remainder x - y*trunc(x/y) of two floating-point numbers is a floating-point number, in
+       FULL generality (every x and every y — also negative or zero —, every precision and minimal exponent; binary64 and
+       binary32 spelled out).  Hence leaving nfmod unrounded in the rounded dictionaries is faithful. --- *)
+Theorem C10_fmod_exact_binary64 :
+  (forall x y, b64 x -> b64 y -> b64 (nfmod B64Ops x y)) /\
+  (forall x y, b32 x -> b32 y -> b32 (nfmod B32Ops x y)) /\
+  (forall prec emin, Prec_gt_0 prec -> forall x y,
+     ffmt prec emin x -> ffmt prec emin y -> ffmt prec emin (nfmod (FlOps prec emin) x y)).
+Proof. exact (conj Rfmod_b64 (conj Rfmod_b32 Rfmod_fmt)). Qed.
+Print Assumptions C10_fmod_exact_binary64.
+
+(* --- between0And2Pi<double>: for every double v of the asserted domain |v| < M_4PI the result r is a double in the
+       CLOSED interval [0, M_2PI] (M_2PI < 2*pi as real numbers, but r = M_2PI is attained: next theorem — the half-open
+       [0, 2*pi) of the real theorem closes in double), congruent to v modulo M_2PI up to ONE rounding: for some integer
+       k in -2..1, |r - (v - k*M_2PI)| <= ulp(M_2PI)/2 = 2^-51, with equality r = v - k*M_2PI whenever the fmod is >= 0
+       (no addition) or <= -M_PI (the addition is exact by Sterbenz); and the distance to the congruence modulo the TRUE
+       2*pi is at most 2^-51 + |k| * 2|M_PI - pi| <= 9.4e-16. --- *)
+Theorem C10_between0And2Pi_binary64 : forall v, b64 v -> Rabs v < 2 * M_2PI64 ->
+  let r := between0And2Pi B64Ops idR idR v in
+  exists k : Z, (-2 <= k <= 1)%Z /\
+    0 <= r <= M_2PI64 /\ M_2PI64 < 2 * PI /\ b64 r /\
+    Rabs (r - (v - IZR k * M_2PI64)) <= bpow radix2 (-51) /\
+    (0 <= nfmod B64Ops v M_2PI64 \/ nfmod B64Ops v M_2PI64 <= - M_PI64 -> r = v - IZR k * M_2PI64) /\
+    Rabs (r - (v - IZR k * (2 * PI))) <= bpow radix2 (-51) + IZR (Z.abs k) * (2 * Rabs (M_PI64 - PI)) /\
+    Rabs (r - (v - IZR k * (2 * PI))) <= 94 / 100000000000000000.
+Proof. exact b02_64_full. Qed.
+Print Assumptions C10_between0And2Pi_binary64.
+
+(* --- the closed upper end IS attained: every v in (-2^-51, 0) — e.g. every negative double of magnitude below 4.4e-16,
+       subnormals included — is sent to M_2PI itself (v + M_2PI rounds to M_2PI), not to a value below it --- *)
+Theorem C10_between0And2Pi_reaches_2pi_binary64 : forall v, - bpow radix2 (-51) < v < 0 ->
+  between0And2Pi B64Ops idR idR v = M_2PI64.
+Proof. exact b02_64_reaches_2pi. Qed.
+Print Assumptions C10_between0And2Pi_reaches_2pi_binary64.
+
+(* --- between0And2Pi<float> computes in double and rounds the RETURN value to binary32 (rnd32): the result lies in
+       [0, 6.2831855f], and for the same tiny negative inputs it is the float 13176795 * 2^-21 = 6.2831855, which is
+       ABOVE the real 2*pi by 1.7e-7 --- *)
+Theorem C10_between0And2Pi_float_return_binary64 :
+  (forall v, b64 v -> 0 <= between0And2Pi B64Ops idR rnd32 v <= 13176795 / 2097152) /\
+  (forall v, - bpow radix2 (-51) < v < 0 ->
+     between0And2Pi B64Ops idR rnd32 v = 13176795 / 2097152 /\
+     2 * PI + 17 / 100000000 < between0And2Pi B64Ops idR rnd32 v).
+Proof. exact (conj b02_32_range b02_32_exceeds_2pi). Qed.
+Print Assumptions C10_between0And2Pi_float_return_binary64.
+
+(* --- betweenMinusPiAndPi<double>: for every double v with |v| < M_4PI the result r is a double in [-M_PI, M_PI]
+       (inside (-pi, pi) as real numbers since M_PI < pi; both ends attained) and r = v - k*M_2PI EXACTLY for an integer
+       k in -2..2: both conditional operations (value + M_2PI for value < -M_PI, value - M_2PI for value > M_PI) are exact
+       by Sterbenz' lemma, so NO rounding occurs at all.  Distance to the true 2*pi congruence <= |k|*2|M_PI - pi| <= 4.9e-16. --- *)
+Theorem C10_betweenMinusPiAndPi_binary64 : forall v, b64 v -> Rabs v < 2 * M_2PI64 ->
+  let r := betweenMinusPiAndPi B64Ops idR idR v in
+  exists k : Z, (-2 <= k <= 2)%Z /\
+    - M_PI64 <= r <= M_PI64 /\ M_PI64 < PI /\ b64 r /\
+    r = v - IZR k * M_2PI64 /\
+    Rabs (r - (v - IZR k * (2 * PI))) <= IZR (Z.abs k) * (2 * Rabs (M_PI64 - PI)) /\
+    Rabs (r - (v - IZR k * (2 * PI))) <= 49 / 100000000000000000.
+Proof. exact bpi_64_full. Qed.
+Print Assumptions C10_betweenMinusPiAndPi_binary64.
+
+(* --- SOURCE TIE in binary64: the normalisers regenerated from the clang AST of the current source, instantiated at the
+       binary64 dictionary, are the functions of the four theorems above --- *)
+Theorem C10_source_tie_normalisers_binary64 : forall v,
+  src_between0And2Pi B64Ops v = between0And2Pi B64Ops idR idR v /\
+  src_betweenMinusPiAndPi B64Ops v = betweenMinusPiAndPi B64Ops idR idR v.
+Proof. intros v. exact (conj (tie_between0And2Pi_b64 v) (tie_betweenMinusPiAndPi_b64 v)). Qed.
+Print Assumptions C10_source_tie_normalisers_binary64.
+
+(* --- concrete binary64 inputs (non-vacuity and evaluation) --- *)
+Example C10_ex_b64_domain : b64 (-1) /\ Rabs (-1) < 2 * M_2PI64 /\ b64 7 /\ Rabs 7 < 2 * M_2PI64 /\ b64 4 /\
+  b64 (- bpow radix2 (-70)) /\ - bpow radix2 (-51) < - bpow radix2 (-70) < 0.
+Proof.
+  pose proof M_2PI64_box. split; [exact b64_m1|]. split; [rewrite Rabs_left; lra|]. split; [exact b64_7|].
+  split; [rewrite Rabs_pos_eq; lra|]. split; [exact b64_4|]. split; [exact b64_tiny|].
+  split; [apply Ropp_lt_contravar, bpow_lt; reflexivity|pose proof (bpow_gt_0 radix2 (-70)); lra].
+Qed.
+Example C10_ex_between0And2Pi_binary64 :
+  between0And2Pi B64Ops idR idR (-1) = M_2PI64 - 1 /\                       (* sum exact *)
+  between0And2Pi B64Ops idR idR 7 = 7 - M_2PI64 /\                          (* no addition *)
+  between0And2Pi B64Ops idR idR (- bpow radix2 (-70)) = M_2PI64 /\          (* -8.5e-22 -> M_2PI *)
+  between0And2Pi B64Ops idR idR (- 3 * bpow radix2 (-52)) = M_2PI64 - bpow radix2 (-50) /\   (* rounded: error 2^-52 *)
+  between0And2Pi B64Ops idR idR (- 3 * bpow radix2 (-52)) - (- 3 * bpow radix2 (-52) + M_2PI64) = - bpow radix2 (-52).
+Proof.
+  exact (conj b02_64_ex_m1 (conj b02_64_ex_7 (conj b02_64_ex_tiny b02_64_ex_rounded))).
+Qed.
+Example C10_ex_betweenMinusPiAndPi_binary64 :
+  (betweenMinusPiAndPi B64Ops idR idR 4 = 4 - M_2PI64 /\ betweenMinusPiAndPi B64Ops idR idR (-4) = M_2PI64 - 4) /\
+  (betweenMinusPiAndPi B64Ops idR idR M_PI64 = M_PI64 /\ betweenMinusPiAndPi B64Ops idR idR (- M_PI64) = - M_PI64).
+Proof. exact (conj bpi_64_ex_4 bpi_64_ex_ends). Qed.
